@@ -22,8 +22,15 @@ THEOREMS = [
     "C20.conservative_object",
     "C20.conservative_name",
     "C20.conservative",
+    "Lemmas.Filter.candidates_desc",
+    "Lemmas.Filter.candidates_in",
 ]
-PARTIAL = {}
+PARTIAL = {
+    "C20.conservative": "object-filter half proved at full strength (C20.conservative_object: the filtered diff IS the unfiltered "
+    "diff restricted to accepted targets); name-filter half proved when include_name rejects no reflected name of the inspected "
+    "database (C20.conservative_name); the per-table refinement that the checker Spec.Filter.conservativeOk evaluates (tables in "
+    "which no reflected name is rejected) is checked on the implementation's output only",
+}
 TRUSTED = [
     "SQLAlchemy Inspector describes the SQLite database side for the model (get_table_names/get_columns/get_indexes/"
     "get_unique_constraints/get_foreign_keys); 'do two matched objects differ' is a parameter of the model, instantiated "
@@ -158,7 +165,7 @@ def gen_preds(rng, pair, n):
 
 def run(ctx, n_pairs=None, rng_name="main"):
     rng = ctx.rng(rng_name)
-    n = n_pairs or (1500 if ctx.thorough else 110)
+    n = n_pairs or (6000 if ctx.thorough else 400)
     per = 8 if ctx.thorough else 6
     items = []
     for i in range(n):
